@@ -74,13 +74,26 @@ def compare_stacks(src_scene, out_scene, pts, eps):
     return dict(kept=kept, nonempty=nonempty, discarded=disc, mismatch=None)
 
 
-def compare_colors(src_scene, out_scene, pts, eps, tol):
+def compare_colors(src_scene, out_scene, pts, eps, tol, steep_probe=None):
+    """steep_probe: a distance d; samples where the *source* colour changes by more than tol/3
+    within d are discarded (a gradient that steep turns the permitted 6-decimal rounding of its
+    parameters into a colour difference above the tolerance)."""
     kept = nonempty = disc = multi = 0
     for p in pts:
         a = src_scene.color(p, eps)
         if a is None:
             disc += 1
             continue
+        if steep_probe:
+            steep = False
+            for q in ((p[0] + steep_probe, p[1]), (p[0], p[1] + steep_probe), (p[0] - steep_probe, p[1] - steep_probe)):
+                a2 = src_scene.color(q, eps)
+                if a2 is None or max(abs(x - y) for x, y in zip(a, a2)) > tol / 3:
+                    steep = True
+                    break
+            if steep:
+                disc += 1
+                continue
         b = out_scene.color(p, eps)
         if b is None:
             disc += 1
